@@ -44,15 +44,14 @@ def denvEntries : DEnv → DExp
   | [] => .nil
   | (k, v) :: rest => .cons k v (denvEntries rest)
 
-/-- Go `makeDisabledExp(disable, inner)` -/
+/-- Go `makeDisabledExp(disable, inner)`.  The Go code skips the wrapper when `inner` is already
+disabled by the SAME control object (pointer comparison); two resolutions of the same reference
+are different objects, so the model always wraps. -/
 def makeDis (d inner : DExp) : DExp :=
   if isNullD inner then inner else
   match d with
   | .lit s => if s = "74727565" then dnull else inner
-  | .sref fq c p =>
-    match inner with
-    | .dis d' _ => if d' = .sref fq c p then inner else .dis (.sref fq c p) inner
-    | _ => .dis (.sref fq c p) inner
+  | .sref fq c p => .dis (.sref fq c p) inner
   | _ => inner
 
 mutual
@@ -164,11 +163,13 @@ def resolveBindsD (ti : TypeInfo) (tys : Members) (f : Ref → DExp) (bs : List 
              | some ty => filterD (membersOf ti) ty (substRefsD f b.exp)
              | none => substRefsD f b.exp)
 
-/-- Go `resolveDisableExp`: a reference is appended unless already present, `true`
+/-- Go `resolveDisableExp`: a reference is appended (the Go code skips it only when the very same
+object is already in the list - a pointer comparison that separately resolved references never
+satisfy), `true`
 replaces everything, `false` adds nothing, a value that is itself disabled by a
 control already in the list is looked through. -/
 def resolveDisableExp (disable : List DExp) : DExp → List DExp
-  | .sref fq c p => if disable.contains (.sref fq c p) then disable else disable ++ [.sref fq c p]
+  | .sref fq c p => disable ++ [.sref fq c p]
   | .lit s => if s = "74727565" then [.lit s] else disable
   | .dis d v => if disable.contains d then resolveDisableExp disable v else disable
   | .split _ => disable
